@@ -151,8 +151,11 @@ func zzNewEnv(rf int) *zzEnv {
 	for i := 0; i <= rf && i < len(zzAddrs); i++ {
 		zzmodel.New(zzAddrs[i])
 	}
-	return &zzEnv{c: c, f: f, fe: fe, rf: rf}
+	zzLastEnv = &zzEnv{c: c, f: f, fe: fe, rf: rf}
+	return zzLastEnv
 }
+
+var zzLastEnv *zzEnv
 
 // zzAttach attaches replica i in the given mode the way addReplicaNoLock +
 // setReplicaModeNoLock leave it (quiescent), including the monitoring goroutine.
